@@ -902,9 +902,14 @@ func genFilter(rng *rand.Rand, name, op, list string) (Occ, bool) {
 	default:
 		if stringFieldNames[name] {
 			oc.Str = true
-			vals := []string{"/etc/passwd", "/tmp/x", "system_u", "s0", "mykey", "a-b_c.d", "/usr/bin/../bin/ls", "x,y", "k\x01k2", "a=b", "back\\slash", "/tmp/with space", "q'uote", strings.Repeat("k", 256), strings.Repeat("p", 300)}
+			vals := []string{"/etc/passwd", "/tmp/x", "system_u", "s0", "mykey", "a-b_c.d", "/usr/bin/../bin/ls", "x,y", "k\x01k2", "a=b", "back\\slash", "/tmp/with space", "q'uote", strings.Repeat("k", 256), strings.Repeat("p", 300),
+				// not ASCII: lengths are counted in bytes, not characters (and need not be valid UTF-8)
+				"/tmp/caf\u00e9", "cl\u00e9", "\u65e5\u672c\u8a9e", "/x/\xff\xfe", strings.Repeat("\u00e9", 130), strings.Repeat("\u00e9", 2100)}
 			oc.RHS = vals[rng.Intn(len(vals))]
 			if name == "key" && len(oc.RHS) > 256 {
+				ok = false
+			}
+			if len(oc.RHS) > 4096 {
 				ok = false
 			}
 		} else {
@@ -991,7 +996,18 @@ func genRuleLine(rng *rand.Rand, wantValid bool) RCaseR {
 			nf = 62 + rng.Intn(5)
 		}
 		archSeen := ""
+		bulkC := rng.Intn(3) // 0: filters only, 1: some inter-field comparisons among them, 2: comparisons only
 		for i := 0; i < nf; i++ {
+			if bulk && (bulkC == 2 || bulkC == 1 && (i%3 == 2 || i == nf-1)) {
+				pairs := [][2]string{{"auid", "uid"}, {"uid", "gid"}, {"euid", "fsuid"}, {"gid", "egid"}}
+				pr := pairs[rng.Intn(len(pairs))]
+				if _, ok := compareNames[pr[0]+"|"+pr[1]]; !ok {
+					pr = [2]string{"auid", "uid"}
+				}
+				op := []string{"=", "!="}[rng.Intn(2)]
+				add(Occ{Flag: "C", LHS: pr[0], Op: op, RHS: pr[1], Value: pr[0] + op + pr[1], Word: u32(uapiCompare[compareNames[pr[0]+"|"+pr[1]]])})
+				continue
+			}
 			if bulk {
 				v := uint32(i)
 				add(Occ{Flag: "F", LHS: "pid", Op: "=", RHS: strconv.Itoa(i), Value: "pid=" + strconv.Itoa(i), Word: &v})
@@ -1068,7 +1084,7 @@ func genRuleLine(rng *rand.Rand, wantValid bool) RCaseR {
 			add(Occ{Flag: "S", Value: strings.Join(items, ","), Eq: eq()})
 		}
 		for k := rng.Intn(3); k > 0; k-- {
-			add(Occ{Flag: "k", Value: []string{"key1", "k2,k3", "a-b", strings.Repeat("z", 100)}[rng.Intn(4)]})
+			add(Occ{Flag: "k", Value: []string{"key1", "k2,k3", "a-b", strings.Repeat("z", 100), "cl\u00e9,\u65e5"}[rng.Intn(5)]})
 			if list == "exclude" {
 				c.Valid = false // the library does not allow a key on the exclude list
 			}
